@@ -434,6 +434,29 @@ func main() {
 			}
 		}
 	}
+	// 1b. The same time menu for a genuine endorsement of an authority bootstrapped a month before
+	// the real present: its certificates ARE valid at the wall clock, so a verifier that consults the
+	// wall clock instead of the caller's time accepts at NotAfter+1s and NotBefore-1s. (The main
+	// fixtures live in 2040, where such a verifier rejects everything - visible to C03, not here.)
+	{
+		present := time.Now().UTC().Truncate(time.Second)
+		an, err := fx.NewAuthority(present.Add(-30*24*time.Hour), "c01-wallclock")
+		if err != nil {
+			mc.Fatal("%v", err)
+		}
+		gn, err := an.SignGolden(proto.Clone(base).(*epb.VMGoldenMeasurement), present.Add(-30*24*time.Hour))
+		if err != nil {
+			mc.Fatal("%v", err)
+		}
+		vn := mk("genuine(wall-clock epoch)", gn.SerializedUefiGolden, gn.Signature)
+		rn := rootSet{"right(wall-clock epoch)", pool(an.RootCert), pemOf(an.RootCert)}
+		nbN, naN := an.SignCert.NotBefore, an.SignCert.NotAfter
+		for _, e := range eps {
+			for _, vt := range []vtime{{"mid", nbN.Add(naN.Sub(nbN) / 2)}, {"NotBefore-1s", nbN.Add(-time.Second)}, {"NotBefore", nbN}, {"NotAfter", naN}, {"NotAfter+1s", naN.Add(time.Second)}, {"NotAfter+10y", naN.Add(10 * 365 * 24 * time.Hour)}} {
+				run(e, vn, rn, vt, "wallclock")
+			}
+		}
+	}
 	// 2. bit flips at (right roots, mid time).
 	sigStride, payStride := 1, 8
 	if r.Thorough() {
